@@ -684,6 +684,11 @@ def addr_words(rng, nets, blanks_ok):
         else:
             w = a
         out.append(w)
+        if rng.random() < 0.35:
+            # the same address again in another mask spelling (host vs network reading of one IP):
+            # --unique keys and --exclude-hosts decisions must not leak from one spelling to the other
+            for ln in rng.sample([None, maxlen, net.prefixlen, max(0, net.prefixlen - 1), min(maxlen, net.prefixlen + 2)], 2):
+                out.append(a if ln is None else f"{a}/{ln}")
     return out
 
 
